@@ -396,7 +396,7 @@ Proof.
       * eapply ev_seq_ok; [apply ev_not_ok; apply ev_sym_fail; exact Es| |reflexivity].
         eapply ev_conv; [apply ev_any_ok|]. f_equal. lia.
 Qed.
-Definition dot_stop (rest : list N) : Prop := match rest with [] => True | x :: _ => x = 46 \/ x = 91 end.
+Definition dot_stop (rest : list N) : Prop := match rest with [] => True | x :: _ => x = 46 \/ x = 91 \/ x = 32 end.
 Lemma ev_dbody_stop rest pos : dot_stop rest -> evG dbody rest pos PFail.
 Proof.
   unfold dbody. destruct rest as [|x r]; intros Hs.
@@ -405,9 +405,9 @@ Proof.
     + eapply ev_seq_fail2; [apply ev_not_ok; apply ev_cls_eof|].
       eapply ev_seq_fail2; [apply ev_not_ok; apply ev_sym_eof|]. apply ev_any_fail.
   - cbn [dot_stop] in Hs. apply ev_alt_r.
-    + apply ev_seq_fail. apply (ev_lit_fail G [92]). apply strip1_no. destruct Hs as [-> | ->]; discriminate.
-    + eapply ev_seq_fail2; [apply ev_not_ok; apply ev_cls_fail; destruct Hs as [-> | ->]; reflexivity|].
-      apply ev_seq_fail. eapply ev_not_fail. apply ev_sym_ok. destruct Hs as [-> | ->]; reflexivity.
+    + apply ev_seq_fail. apply (ev_lit_fail G [92]). apply strip1_no. destruct Hs as [-> | [-> | ->]]; discriminate.
+    + eapply ev_seq_fail2; [apply ev_not_ok; apply ev_cls_fail; destruct Hs as [-> | [-> | ->]]; reflexivity|].
+      apply ev_seq_fail. eapply ev_not_fail. apply ev_sym_ok. destruct Hs as [-> | [-> | ->]]; reflexivity.
 Qed.
 Lemma dot_unit_len c : (1 <= List.length (dot_unit c))%nat.
 Proof. unfold dot_unit. destruct (dot_sym c); cbn; lia. Qed.
@@ -444,7 +444,7 @@ Proof.
 Qed.
 
 Lemma strip_stop rest : dot_stop rest -> strip_prefix [40; 41] rest = None.
-Proof. destruct rest as [|x r]; [reflexivity|]. cbn [dot_stop]. intros [-> | ->]; reflexivity. Qed.
+Proof. destruct rest as [|x r]; [reflexivity|]. cbn [dot_stop]. intros [-> | [-> | ->]]; reflexivity. Qed.
 
 Lemma ev_rule13 c k rest pos : forallb dot_char (c :: k) = true -> dot_stop rest ->
   evG (PRef 13) (esc_dot_cps (c :: k) ++ rest) pos
